@@ -82,7 +82,50 @@ func c17Main(args []string) error {
 		fmt.Fprintf(w, "case %d\n", id)
 		// ---- (a) lock sequence
 		actors := map[string]*actor{}
+		lpath := path
 		nops := 3 + cr.intn(4)
+		if cr.chance(1, 2) {
+			// an Open that is REFUSED must leave no lock behind: the file is damaged in place (same inode), an Open (read-write or
+			// read-only, in this process) is refused, the content is restored in place; the sequence below then runs as if nothing had happened
+			good, _ := os.ReadFile(path)
+			lpath = path + ".lk" // the lock sequence of this case runs on a copy: a lock left behind must not stall the other parts of the case
+			_ = os.WriteFile(lpath, good, 0600)
+			defer os.Remove(lpath)
+			kind := []string{"truncated", "garbage", "both-metas"}[cr.intn(3)]
+			bad := append([]byte{}, good...)
+			pgsz := int(bad[16+8]) | int(bad[16+9])<<8 | int(bad[16+10])<<16
+			switch kind {
+			case "truncated": // the tail is lost, both metas intact
+				mark := func(slot int) int { o := slot*pgsz + 16 + 40; return int(bad[o]) | int(bad[o+1])<<8 | int(bad[o+2])<<16 | int(bad[o+3])<<24 }
+				m := mark(0)
+				if mark(1) < m {
+					m = mark(1)
+				}
+				if m > 3 && (m-1)*pgsz < len(bad) {
+					bad = bad[:(m-1)*pgsz] // shorter than the file's own high water mark
+				}
+			case "garbage":
+				for i := range bad[:64] {
+					bad[i] = byte(cr.intn(256))
+				}
+				for i := range bad[pgsz : pgsz+64] {
+					bad[pgsz+i] = byte(cr.intn(256))
+				}
+			default:
+				bad[16+20] ^= 0xff
+				bad[pgsz+16+20] ^= 0xff
+			}
+			mode := []string{"rw", "ro"}[cr.intn(2)]
+			_ = os.WriteFile(lpath, bad, 0600)
+			fmt.Fprintf(w, "o refused %s %s\n", mode, kind)
+			t0 := time.Now()
+			d, err := bolt.Open(lpath, 0600, &bolt.Options{ReadOnly: mode == "ro", Timeout: 150 * time.Millisecond})
+			if err == nil {
+				d.Close()
+			}
+			_ = os.WriteFile(lpath, good, 0600)
+			fmt.Fprintf(w, "r %s ms=%d\n", errName(err), time.Since(t0).Milliseconds())
+		}
 		for k := 0; k < nops; k++ {
 			name := []string{"A", "B", "C"}[cr.intn(3)]
 			a := actors[name]
@@ -112,13 +155,13 @@ func c17Main(args []string) error {
 			fmt.Fprintf(w, "o open %s %s %s\n", name, mode, how)
 			t0 := time.Now()
 			if how == "in" {
-				d, err := bolt.Open(path, 0600, &bolt.Options{ReadOnly: mode == "ro", Timeout: 150 * time.Millisecond})
+				d, err := bolt.Open(lpath, 0600, &bolt.Options{ReadOnly: mode == "ro", Timeout: 150 * time.Millisecond})
 				if err == nil {
 					actors[name] = &actor{db: d}
 				}
 				fmt.Fprintf(w, "r %s ms=%d\n", errName(err), time.Since(t0).Milliseconds())
 			} else {
-				cmd := exec.Command(os.Args[0], "c17hold", path, mode)
+				cmd := exec.Command(os.Args[0], "c17hold", lpath, mode)
 				in, _ := cmd.StdinPipe()
 				outp, _ := cmd.StdoutPipe()
 				_ = cmd.Start()
